@@ -5,7 +5,8 @@ M-QUERY-SMC — the statistical query forms on top of the expression language (C
 
 with the bounds  B ::= <=e | #<=e | l<=e   optionally followed by `; n` (the number of runs).  In `l<=e` both sides are expressions and the
 text `l <= e` is itself an expression: the LALR parser reads the whole text as one and splits it at its top `<=` (so `c <= a <= b` bounds
-`c <= a` by `b`, and `c <= a && b` is not a bound at all); the model does the same.
+`c <= a` by `b`, and `c <= a && b` is not a bound at all); the model does the same, and the printer writes such a bound as the expression
+`l <= e` (since the repair 9985bc8; before, both sides were written bare and `c <= (a && b)` did not come back).
 
 * `SQuery`: the trees `expr_proba_quantitative`, `expr_proba_expected`, `expr_simulate` build (ExpressionBuilder.cpp): the run count
   (-1 = not given), the bound type (constant 1 = time, 0 = steps, or the bounding clock), the bound, and the operands.
@@ -45,23 +46,26 @@ deriving DecidableEq, Repr, Inhabited
 /-- the terminals of a literal of the print cases, by role -/
 def lit (role : String) : List Tok := ((smcLits.lookup role).getD []).map qtok
 
-def kindToks (P : Expr → List Tok) : BKind → List Tok
-  | .time => lit "leq"
-  | .steps => lit "steps" ++ lit "leq"
-  | .expr l => P l ++ lit "leq"
+/-- the token `<=` -/
+def leqTok : Nat := qid "T_LEQ"
 
-/-- `print_bound_type(get(1)); get(2).print(); if (get(0) >= 0) print("; ", get(0))` -/
+/-- `print_bound`: `<=e`, `#<=e`; the form `l<=e` is written as the expression `l <= e` itself (`create_binary(LE, l, e).print`), which puts
+    parentheses around an operand that needs them next to `<=` -/
+def boundToks (P : Expr → List Tok) (b : Bnd) : List Tok :=
+  match b.kind with
+  | .time => lit "leq" ++ P b.bound
+  | .steps => lit "steps" ++ lit "leq" ++ P b.bound
+  | .expr l => P (.bin leqTok l b.bound)
+
+/-- `print_bound(..); if (get(0) >= 0) print("; ", get(0))` -/
 def runsToks : Option Nat → List Tok
   | some n => lit "runs" ++ [.atom (.nat n)]
   | none => []
 
-def bndToks (P : Expr → List Tok) (b : Bnd) : List Tok := kindToks P b.kind ++ P b.bound ++ runsToks b.runs
+def bndToks (P : Expr → List Tok) (b : Bnd) : List Tok := boundToks P b ++ runsToks b.runs
 
 /-- `expression_t::is_true()`: an integral constant of value 1 -/
 def isTrue (e : Expr) : Bool := e == .atom .tru || e == .atom (.nat 1)
-
-/-- the token `<=` -/
-def leqTok : Nat := qid "T_LEQ"
 
 def printS (P : Expr → List Tok) : SQuery → List Tok
   | .pr box b pred u =>
@@ -72,7 +76,7 @@ def printS (P : Expr → List Tok) : SQuery → List Tok
     lit "ex" ++ bndToks P b ++ lit "exOpen" ++ .atom (.ident (if isMax then "max" else "min")) :: (lit "colon" ++ P e ++ lit "close")
   | .sim b l =>
     -- the run count is always printed (`get(0).print`)
-    lit "sim" ++ kindToks P b.kind ++ P b.bound ++ lit "runs" ++ .atom (.nat (b.runs.getD 1)) :: (lit "simOpen" ++ printList P l ++ lit "simClose")
+    lit "sim" ++ boundToks P b ++ lit "runs" ++ .atom (.nat (b.runs.getD 1)) :: (lit "simOpen" ++ printList P l ++ lit "simClose")
 
 def sprint (q : SQuery) : List Tok := printS (PrintModel.lprint genData mt) q
 
@@ -167,12 +171,11 @@ def parseS (ts : List Tok) : Option SQuery :=
 
 /-! ### well-formedness and the kind tree -/
 
-/-- in `l<=e` the printer writes both sides bare: the text must be the text of the expression `l <= e` (no parentheses needed or written) -/
+/-- the operands of a bound meet the criterion of the expression level; in `l<=e` that is the criterion of the expression `l <= e` -/
 def Bnd.wf (b : Bnd) : Bool :=
   goodE b.bound &&
     (match b.kind with
-     | .expr l => goodE l && goodE (.bin leqTok l b.bound) &&
-         decide (PrintModel.lprint genData mt (.bin leqTok l b.bound) = PrintModel.lprint genData mt l ++ lit "leq" ++ PrintModel.lprint genData mt b.bound)
+     | .expr l => goodE l && goodE (.bin leqTok l b.bound)
      | _ => true)
 
 def SQuery.wf : SQuery → Bool
